@@ -35,13 +35,13 @@ from harness.feas_util import Bench, TRX, base_mode, penalties_json
 
 BAND_DB = 0.0051
 CLAUSES_B1 = ['TypeOK', 'AutoSelection', 'FixedModeVerdict', 'InfPenaltyAlwaysBlocks', 'CompositionHolds',
-              'LineIsPristine', 'ReverseOnOwnRoute', 'RuleWellDefined', 'SelectionUniqueUpToTies', 'BlockedIffNoFeasible']
-WITNESSES = ['WitnessManyUpdates', 'WitnessReverseBlocks', 'WitnessUnjudgedPick', 'WitnessProfileZero',
-             'WitnessOtherRoute', 'WitnessSameRoute']
+              'LineIsPristine', 'ReverseOnOwnRoute', 'DirectionAsRequested', 'RuleWellDefined', 'SelectionUniqueUpToTies', 'BlockedIffNoFeasible']
+WITNESSES = ['WitnessManyUpdates', 'WitnessReverseBlocks', 'WitnessUnjudgedPick']
+TAGS = ['ProfileZero', 'OtherRoute', 'SameRoute', 'MixedSpectrum', 'MixedFlags']      # MC_Feasibility.WitnessTags
 
 TIER = {
     # b2: (# two-mode libraries sampled, # three-mode libraries sampled, paths); b3: scenarios per pair, pairs
-    'quick': dict(b2_two=230, b2_three=330, b2_paths=1, b3_per_pair=23, b3_pairs='quick'),
+    'quick': dict(b2_two=200, b2_three=280, b2_paths=1, b3_per_pair=23, b3_pairs='quick'),
     'thorough': dict(b2_two=1176, b2_three=4000, b2_paths=3, b3_per_pair=64, b3_pairs='thorough'),
 }
 
@@ -58,9 +58,12 @@ def start_b1(pool):
     jobs = {'main': pool.submit(tlc.run, 'MC_Feasibility', cfg_text=mc_cfg(CLAUSES_B1 + ['Emit']), timeout=1500,
                                 tag='c13-mc')}
     for w in WITNESSES:
-        libs = 'MCWitnessLibs1' if w in ('WitnessProfileZero', 'WitnessOtherRoute', 'WitnessSameRoute') else 'MCWitnessLibs'
-        jobs[w] = pool.submit(tlc.run, 'MC_Feasibility', cfg_text=mc_cfg([w], libs=libs), timeout=900,
+        jobs[w] = pool.submit(tlc.run, 'MC_Feasibility', cfg_text=mc_cfg([w], libs='MCWitnessLibs'), timeout=900,
                               tag='c13-' + w, workers=2)
+    seen = set()
+    jobs['tags'] = pool.submit(tlc.run, 'MC_Feasibility', cfg_text=mc_cfg(['WitnessTags'], libs='MCWitnessLibs1'),
+                               timeout=900, tag='c13-tags', workers=2, on_emit=seen.add)
+    jobs['tags_seen'] = seen
     return jobs
 
 
@@ -74,6 +77,11 @@ def finish_b1(chk, jobs):
             raise Machinery(f'vacuity: witness {w} not reached in the bounded model ({rw.error})')
         chk.mc_runs.append(dict(model=f'reachability witness {w} (negated invariant violated as required)',
                                 **rw.as_dict()))
+    rt = jobs['tags'].result()
+    missing = [t for t in TAGS if t not in jobs['tags_seen']]
+    if not rt.ok or missing:
+        raise Machinery(f'vacuity: stage / batch / spectrum dimensions not reached in the bounded model: {missing} {rt.error}')
+    chk.mc_runs.append(dict(model='reachability tags ' + ', '.join(TAGS) + ' (one-mode sub-model)', **rt.as_dict()))
     chk.cov['b1_libraries'] = len(r.emitted)
     return r.emitted
 
@@ -283,7 +291,8 @@ def physical_library(kind, spacing, meas, rng, listing='asc'):
     return lib
 
 
-def place_thresholds(bench, src, dst, spacing, lib, deltas, margin, reference, vias=((),)):
+def place_thresholds(bench, src, dst, spacing, lib, deltas, margin, reference, vias=((),), spectrum=None,
+                     only=None):
     """OSNR of every fitting mode := (measured pristine worst channel) - delta - margin.  `reference` chooses the
     direction(s) measured: 'fwd', 'rev' (straddle the reverse metric), 'between' (forward passes, reverse fails when
     the directions differ) or 'fwdpass' (like 'between', and forward passes by 0.3 dB when they do not differ or the
@@ -293,16 +302,16 @@ def place_thresholds(bench, src, dst, spacing, lib, deltas, margin, reference, v
     out = []
     for m, d in zip(lib, deltas):
         m = dict(m)
-        if m['min_spacing'] <= spacing:
-            f = bench.pristine(src, dst, 0, spacing, m, via)
+        if m['min_spacing'] <= spacing and (only is None or only == len(out) + 1):
+            f = bench.pristine(src, dst, 0, spacing, m, via, spectrum)
             wf = fu.worst_db(f)
             w = wf if np.isfinite(wf) else float(np.min(f['rx'])) - 3.0
             if reference == 'routes' and len(vias) > 1:
-                wrs = [fu.worst_db(bench.pristine(src, dst, 1, spacing, m, v)) for v in vias[:2]]
+                wrs = [fu.worst_db(bench.pristine(src, dst, 1, spacing, m, v, spectrum)) for v in vias[:2]]
                 if all(np.isfinite(x) for x in wrs) and abs(wrs[0] - wrs[1]) > 0.03:
                     w, d = (wrs[0] + wrs[1]) / 2, 0.0
             elif reference != 'fwd':
-                r = bench.pristine(src, dst, 1, spacing, m, via)
+                r = bench.pristine(src, dst, 1, spacing, m, via, spectrum)
                 wr = fu.worst_db(r)
                 if np.isfinite(wr) and np.isfinite(wf):
                     if reference == 'rev':
@@ -324,19 +333,24 @@ def place_thresholds(bench, src, dst, spacing, lib, deltas, margin, reference, v
     return out
 
 
-def scenario_traces(bench, name, src, dst, spacing, modes_json, fixed, bidir, margin, vias=((),)):
-    """run the real code on one constructed scenario - ONE call of compute_path_with_disjunction for a batch of
-    requests identical but for their route (vias) - and assemble one integer trace per request for Trace_Feasibility;
-    every request is judged against the pristine figures of ITS OWN route"""
+def scenario_traces(bench, name, src, dst, spacing, modes_json, fixed, flags, margin, vias=((),), spectrum=None):
+    """run the real code on one constructed scenario - the services of ONE service file, identical but for their route
+    (vias) and their bidirectional flag (flags), through requests_aggregation and ONE call of
+    compute_path_with_disjunction - and assemble one integer trace per SERVICE for Trace_Feasibility: every service
+    is judged for what it asked (its own flag) against the pristine figures of its own route"""
     from gnpy.topology.request import find_reversed_path
     eq = bench.equipment(modes_json, margin)
     loaded = eq['Transceiver'][TRX].mode
     pen_ids = {id(m['penalties']): k + 1 for k, m in enumerate(loaded)}
-    rqs, evals, exc, res = fu.run_batch(bench, eq, src, dst, None if not fixed else modes_json[fixed - 1]['format'],
-                                        bidir, spacing, vias)
+    rqs, serving, evals, exc, res = fu.run_batch(bench, eq, src, dst,
+                                                 None if not fixed else modes_json[fixed - 1]['format'], flags, spacing,
+                                                 vias, spectrum)
     sys_margin = eq['SI']['default'].sys_margins
+    txc = fu.spectrum_carriers_tx(spectrum) if spectrum else []
     out = []
-    for ri, (req, via) in enumerate(zip(rqs, vias)):
+    for si, (via, bidir) in enumerate(zip(vias, flags)):
+        ri = serving[si]
+        req = rqs[ri]
         sel, block = fu.outcome_of(req, eq, exc)
         path = bench.path(src, dst, spacing, via)
         tmodes = []
@@ -348,19 +362,20 @@ def scenario_traces(bench, name, src, dst, spacing, modes_json, fixed, bidir, ma
                       thr=udb(m['OSNR'] + sys_margin), tx=fu.inv9(m['tx_osnr']), pf=fu.NOT_RUN, pr=fu.NOT_RUN)
             for imp, short in fu.SHORT.items():
                 tm[short] = fu.points_int(mj.get('penalties'), imp)      # as written in the file, not as loaded
-            if fits:
-                pf = bench.pristine(src, dst, 0, spacing, mj, via)
+            if fits and (not spectrum or k == fixed):
+                pf = bench.pristine(src, dst, 0, spacing, mj, via, spectrum)
                 raw['pristine'][(k, 0)] = pf
                 tm['pf'] = fu.project_eval(pf, k, 0, 0)
                 events.append(dict(kind=0, mode=k, dir=0))
                 if bidir and k in (fixed, sel):
-                    pr = bench.pristine(src, dst, 1, spacing, mj, via)
+                    pr = bench.pristine(src, dst, 1, spacing, mj, via, spectrum)
                     raw['pristine'][(k, 1)] = pr
                     tm['pr'] = fu.project_eval(pr, k, 1, 0)
                     events.append(dict(kind=0, mode=k, dir=1))
             tmodes.append(tm)
+        mine = str(req.request_id)
         for ev in evals:
-            if ev['req'] != str(req.request_id):
+            if ev['req'] != mine:
                 if ev['req'] is None:
                     raise Machinery(f'{name}: a receiver evaluation outside propagate / propagate_and_optimize_mode')
                 continue
@@ -368,13 +383,15 @@ def scenario_traces(bench, name, src, dst, spacing, modes_json, fixed, bidir, ma
             if k is None:
                 raise Machinery(f'{name}: a receiver evaluation used a penalties table that is not a mode of the library')
             direction = 0 if ev['uid'] == dst else 1
+            if txc and len(txc) != len(ev['rx']):
+                raise Machinery(f'{name}: {len(ev["rx"])} carriers received for a spectrum of {len(txc)}')
             events.append(fu.project_eval(ev, k, direction, 1))
             raw['loop'].append((k, direction, ev))
-        # the reverse result RETURNED for this request: the figures its verdict was taken on
+        # the reverse result RETURNED for the request serving this service: the figures its verdict was taken on
         if res is not None and bidir and sel and res[2][ri]:
             events.append(fu.project_reported(res[2][ri][-1], sel))
-        tr = dict(name=f'{name}.{ri}' if len(vias) > 1 else name, auto=int(not fixed), bidir=int(bool(bidir)),
-                  fixed=fixed or 0, stf=bench.stages(path), str=bench.stages(find_reversed_path(path)),
+        tr = dict(name=f'{name}.{si}' if len(vias) > 1 else name, auto=int(not fixed), bidir=int(bool(bidir)),
+                  fixed=fixed or 0, stf=bench.stages(path), str=bench.stages(find_reversed_path(path)), txc=txc,
                   modes=tmodes, ev=events, out=dict(sel=sel, block=block))
         out.append((tr, raw, exc))
     return out
@@ -411,7 +428,9 @@ def deviations(tr, raw, acc):
             e = tr['modes'][e['mode'] - 1]['pf' if e['dir'] == 0 else 'pr']
         m = tr['modes'][e['mode'] - 1]
         adds = sum(fu.stage_inv(st) for st in (tr['stf'] if e['dir'] == 0 else tr['str']))
-        acc['composition'] = max(acc['composition'], max(abs(rx - ln - m['tx'] - adds) for rx, ln in zip(e['rx'], e['line'])))
+        txs = tr['txc'] if tr['txc'] else [m['tx']] * len(e['rx'])
+        acc['composition'] = max(acc['composition'],
+                                 max(abs(rx - ln - tx - adds) for rx, ln, tx in zip(e['rx'], e['line'], txs)))
         acc['max_nup'] = max(acc['max_nup'], e['nup'])
         for short in ('cd', 'pmd', 'pdl'):
             for v, obs in zip(e[short], e['p' + short]):
@@ -436,10 +455,14 @@ def build_b3(chk, benches):
     # plans taken first on every pair: the table-end / per-channel kinds in each request shape (None: drawn at random)
     # last field: the batch - None (one request) or two requests with the same ends and mode: 'alt-first' (constrained
     # route then shortest), 'alt-second', 'same' (twice the shortest); only where the network offers another route
+    #   'flags-TF' / 'flags-FT': two services on the same route identical but for their bidirectional flag (they go
+    #   through requests_aggregation like every batch); 'spec-good-first' / 'spec-bad-first': one fixed-mode request
+    #   carrying a user-defined spectrum whose partitions have different transmitter OSNR
     plans = [(k, None, None, None, None) for k in kinds]
+    plans += [('plain', True, True, 'fwdpass', 'flags-TF'), ('plain', True, True, 'fwdpass', 'flags-FT'),
+              ('plain', True, False, 'fwd', 'spec-good-first'), ('cdsteep', True, True, 'fwd', 'spec-bad-first')]
     plans += [('plain', True, True, 'routes', 'alt-first'), ('plain', False, True, 'routes', 'alt-second'),
-              ('offset', True, True, 'fwdpass', 'alt-second'), ('cdsteep', True, True, 'rev', 'alt-first'),
-              ('plain', True, True, 'fwd', 'same')]
+              ('offset', True, True, 'fwdpass', 'alt-second'), ('plain', True, True, 'fwd', 'same')]
     plans += [(k, fx, True, ref, None) for k in ('cdpartial', 'cdsteep', 'cdlow') for fx, ref in ((False, 'fwdpass'), (True, 'fwdpass'))]
     plans += [('cdsteep', False, True, 'rev', None), ('cdlow', True, False, 'fwd', None), ('cdpartial', False, False, 'fwd', None)]
     for pi, (bname, src, dst) in enumerate(b3_pairs(chk.tier, benches, rng)):
@@ -448,8 +471,8 @@ def build_b3(chk, benches):
         meas = dict(f=(float(np.min(probe[0])), float(np.max(probe[0]))),
                     r=(float(np.min(probe[1])), float(np.max(probe[1]))))
         alts = bench.alternative_routes(src, dst) if bench.name.startswith(('mesh', 'prof')) else []
-        pair_plans = [pl for pl in plans if alts or pl[4] is None]        # batch plans only where there is another route
-        for si in range(cfg['b3_per_pair'] - (0 if alts else 3)):
+        pair_plans = [pl for pl in plans if alts or pl[4] not in ('alt-first', 'alt-second')]   # needs another route
+        for si in range(cfg['b3_per_pair'] - (0 if alts else 1)):
             kind, p_fixed, p_bidir, p_ref, p_batch = pair_plans[si] if si < len(pair_plans) else \
                 (rng.choice(kinds), None, None, None, None)
             spacing = 75e9 if kind != 'nofit' else rng.choice([75e9, 50e9, 25e9])
@@ -481,19 +504,30 @@ def build_b3(chk, benches):
                     deltas = [rng.choice(DELTAS) for _ in range(n)]
             if p_batch is None and p_bidir is None and bidir and alts and rng.random() < 0.2:
                 p_batch = rng.choice(['alt-first', 'alt-second', 'same'])
-            vias = ((),)
-            if p_batch and alts and spacing == 75e9:
-                alt = alts[si % len(alts)]
+            vias, flags, spectrum, only = ((),), (bidir,), None, None
+            if p_batch in ('alt-first', 'alt-second', 'same') and spacing == 75e9 and (alts or p_batch == 'same'):
+                alt = alts[si % len(alts)] if alts else ()
                 vias = {'alt-first': (alt, ()), 'alt-second': ((), alt), 'same': ((), ())}[p_batch]
-            modes = place_thresholds(bench, src, dst, spacing, lib, deltas, sys_margin, reference, vias)
+                flags = (bidir, bidir)
+            elif p_batch in ('flags-TF', 'flags-FT') and spacing == 75e9:
+                vias, flags = ((), ()), ((True, False) if p_batch == 'flags-TF' else (False, True))
+            elif p_batch in ('spec-good-first', 'spec-bad-first') and fixed and spacing == 75e9:
+                tx = [45.0, 24.0] if p_batch == 'spec-good-first' else [23.0, 38.0, 44.0]
+                spectrum = fu.spectrum_partitions(lib[fixed - 1]['baud_rate'], spacing, tx,
+                                                  width=2.0e12 if len(tx) == 2 else 1.3e12)
+                only = fixed
+                deltas = [rng.choice([-0.3, -0.02, 0.02, 0.3]) for _ in range(n)]
+            modes = place_thresholds(bench, src, dst, spacing, lib, deltas, sys_margin, reference, vias, spectrum, only)
             name = f't{pi}-{si}'
-            for tr, raw, exc in scenario_traces(bench, name, src, dst, spacing, modes, fixed, bidir, margin, vias):
+            for tr, raw, exc in scenario_traces(bench, name, src, dst, spacing, modes, fixed, flags, margin, vias,
+                                                spectrum):
                 hist_dev = deviations(tr, raw, acc)
                 traces.append(tr)
                 meta[tr['name']] = dict(
                     history_deviation_db=round(hist_dev, 6), bench=bname, src=src, dst=dst, kind=kind,
-                    spacing=spacing, fixed=fixed, bidir=bidir, reference=reference, measured_cd=meas,
-                    table_listing=listing, batch_routes=[list(v) for v in vias],
+                    spacing=spacing, fixed=fixed, bidir=bool(tr['bidir']), reference=reference, measured_cd=meas,
+                    table_listing=listing, batch_routes=[list(v) for v in vias], batch_flags=list(flags),
+                    spectrum_tx_osnr=[q['tx_osnr'] for q in spectrum] if spectrum else None,
                     stages_forward=[dict(kind=st['kind'], sel=st['sel'], profile_ids=[q['id'] for q in st['profiles']])
                                     for st in tr['stf']],
                     deltas_db=deltas, sys_margins=sys_margin, exception=exc, outcome=tr['out'],
